@@ -861,3 +861,36 @@ func ZZRunStructural() {
 }
 
 func init() { vn.Register("zzpub.ZZRunStructural", ZZRunStructural) }
+
+// ZZParseTwice (C19): what a text parses to does not depend on the text parsed before it in the
+// same host process — in particular not on a rejected text whose error comes after complete
+// statements (the grammar's reduce actions have already run by then).
+func ZZParseTwice() {
+	first := []string{
+		"prc[a] : lin 1 = print earlier; close self )",
+		"let g() : lin 1 = close self\nexec g() )",
+		"type A = 1 )",
+		"let f() : lin 1 = close self )",
+		"prc[a : = \n",
+		"",
+		"prc[a] : lin 1 = close self",
+	}[vn.Pick(7)]
+	second := []struct {
+		src          string
+		procs, funcs int
+	}{
+		{"print later; close self", 1, 0},
+		{"prc[b] : lin 1 = close self", 1, 0},
+		{"let h() : lin 1 = close self\nexec h()", 1, 1},
+		{"type B = lin 1\nprc[b] : B = close self\nprc[c] : lin 1 = wait b; close self", 2, 0},
+	}[vn.Pick(4)]
+	parser.ParseString(first)
+	procs, _, genv, err := parser.ParseString(second.src)
+	ok := err == nil && len(procs) == second.procs && genv != nil && genv.FunctionDefinitions != nil && len(*genv.FunctionDefinitions) == second.funcs
+	vn.Assert("C19.parse-result-independent-of-earlier-texts", ok)
+	if err == nil {
+		vn.Observe("procs", len(procs))
+	}
+}
+
+func init() { vn.Register("zzpub.ZZParseTwice", ZZParseTwice) }
